@@ -319,6 +319,74 @@ def verify_input(tx, index, spent_script):
     return True, "", info
 
 
+def script_num(n):
+    """minimal script-number encoding of a positive integer (little endian, sign bit kept clear)"""
+    assert n > 0
+    b = n.to_bytes((n.bit_length() + 7) // 8, "little")
+    if b[-1] & 0x80:
+        b += b"\x00"
+    return b
+
+
+def timelock_redeem_script(height, h160):
+    """<height> OP_CHECKLOCKTIMEVERIFY OP_DROP OP_DUP OP_HASH160 <h160> OP_EQUALVERIFY OP_CHECKSIG"""
+    return push(script_num(height)) + b"\xb1\x75\x76\xa9" + push(h160) + b"\x88\xac"
+
+
+def p2sh_script(h160):
+    return b"\xa9" + push(h160) + b"\x87"
+
+
+def verify_p2sh_timelock_input(tx, index, spent_script):
+    """Input `index` spends a pay-to-script-hash output whose redeem script is a CLTV time lock in front of a P2PKH.
+    Conditions: scriptSig is exactly three pushes <sig> <pubkey> <redeem>; HASH160(redeem) is the hash the spent
+    output pays to; the redeem script is `<n> CLTV DROP DUP HASH160 <h> EQUALVERIFY CHECKSIG` with h == HASH160(pubkey);
+    hash type SIGHASH_ALL; the signature verifies over the legacy digest whose scriptCode is the REDEEM script (that is
+    what OP_CHECKSIG executes inside for P2SH)."""
+    info = {}
+    try:
+        toks = parse_pushes(tx.inputs[index].script)
+    except TxParseError:
+        return False, "scriptsig-unparsable", info
+    if len(toks) != 3 or any(t[1] is None for t in toks):
+        return False, "scriptsig-not-sig-pubkey-redeem", info
+    sig, pubkey, redeem = toks[0][1], toks[1][1], toks[2][1]
+    info["redeem"] = redeem
+    if not (len(spent_script) == 23 and spent_script[:2] == b"\xa9\x14" and spent_script[-1:] == b"\x87"):
+        return False, "spent-script-not-p2sh", info
+    if hash160(redeem) != spent_script[2:22]:
+        return False, "redeem-script-hash-mismatch", info
+    try:
+        rt = parse_pushes(redeem, limit=1)
+    except TxParseError:
+        return False, "redeem-unparsable", info
+    # <push n> b1 75 76 a9 14 <20> 88 ac
+    tail = redeem[-27:]
+    if not rt or rt[0][1] is None or rt[0][2] + len(rt[0][1]) != len(redeem) - 27:
+        return False, "redeem-not-timelock", info
+    info["height"] = int.from_bytes(rt[0][1], "little")
+    if not (len(redeem) >= 29 and tail[:5] == b"\xb1\x75\x76\xa9\x14" and tail[-2:] == b"\x88\xac"):
+        return False, "redeem-not-timelock", info
+    if hash160(pubkey) != tail[5:25]:
+        return False, "pubkey-hash-mismatch", info
+    if len(sig) < 9:
+        return False, "signature-too-short", info
+    if sig[-1] != SIGHASH_ALL:
+        return False, "hashtype-not-sighash-all", info
+    digest = sighash_all(tx, index, redeem)
+    info["digest"] = digest
+    try:
+        r, s = ec.parse_der_signature(sig[:-1])
+        pt = ec.parse_point(pubkey)
+    except ec.Secp256k1Error:
+        return False, "der-or-pubkey-invalid", info
+    info["low_s"] = ec.is_low_s(s)
+    info["sig_len"] = len(sig)
+    if not ec.verify_rs(pt, digest, r, s):
+        return False, "signature-does-not-verify", info
+    return True, "", info
+
+
 # ---- self test -------------------------------------------------------------------------------------------------
 
 # Bitcoin main-net transaction of block 170 (first ever payment; spends a pay-to-pubkey output): real chain data for
